@@ -122,35 +122,35 @@ Qed.
 (* decodeStringEscapes: text without '%', NUL or non-ASCII bytes is unchanged *)
 Definition plain (b : byte) : bool := (0 <? b2n b) && (b2n b <? 128) && negb (b2n b =? 37).
 
-Lemma dec_esc_plain : forall s fuel acc, (length s < fuel)%nat -> forallb plain s = true ->
-  dec_esc fuel s acc = POK (acc ++ s).
+Lemma dec_esc_plain : forall s fuel, (length s < fuel)%nat -> forallb plain s = true ->
+  dec_esc fuel s = POK s.
 Proof.
-  induction s as [|b s IH]; intros fuel acc Hf Hp.
-  - destruct fuel; [simpl in Hf; lia|]. simpl. rewrite app_nil_r. reflexivity.
+  induction s as [|b s IH]; intros fuel Hf Hp.
+  - destruct fuel; [simpl in Hf; lia|]. reflexivity.
   - destruct fuel; [simpl in Hf; lia|]. simpl in Hp. apply andb_true_iff in Hp. destruct Hp as [Hb Hs].
     unfold plain in Hb. apply andb_true_iff in Hb. destruct Hb as [Hb H37].
     apply andb_true_iff in Hb. destruct Hb as [H0 H128].
     cbn [dec_esc]. unfold dec_rune. rewrite H128. cbn [skipn].
     apply N.ltb_lt in H0. replace (b2n b =? 0) with false by (symmetry; apply N.eqb_neq; lia).
     apply negb_true_iff in H37. rewrite H37.
-    rewrite IH by (simpl in Hf; try assumption; lia).
+    rewrite IH by (simpl in Hf; try assumption; lia). cbn [pcons].
     unfold enc_rune. replace (valid_scalar (b2n b)) with true.
     2:{ symmetry. unfold valid_scalar. apply N.ltb_lt in H128. apply orb_true_iff. left. apply N.ltb_lt. lia. }
-    rewrite H128. rewrite n2b_b2n. rewrite <- app_assoc. reflexivity.
+    rewrite H128. rewrite n2b_b2n. reflexivity.
 Qed.
 
 Theorem decode_escapes_plain s : forallb plain s = true -> decode_escapes s = POK s.
-Proof. intros H. unfold decode_escapes. rewrite dec_esc_plain by (try assumption; lia). reflexivity. Qed.
+Proof. intros H. unfold decode_escapes. apply dec_esc_plain; [lia | exact H]. Qed.
 
 (* one %XX escape of an ASCII byte in front of the rest *)
-Lemma dec_esc_pct_ascii fuel h1 h2 s acc :
+Lemma dec_esc_pct_ascii fuel h1 h2 s :
   is_hex h1 = true -> is_hex h2 = true -> is_c 117 h1 = false ->
   let v := hex_val h1 * 16 + hex_val h2 in
   0 < v -> v < 128 ->
-  dec_esc (S fuel) (n2b 37 :: h1 :: h2 :: s) acc = dec_esc fuel s (acc ++ [n2b v]).
+  dec_esc (S fuel) (n2b 37 :: h1 :: h2 :: s) = pcons [n2b v] (dec_esc fuel s).
 Proof.
   intros H1 H2 Hu v Hv0 Hv. cbn [dec_esc]. unfold dec_rune.
-  replace (b2n (n2b 37)) with 37 by reflexivity. cbn [N.ltb N.compare Pos.compare Pos.compare_cont skipn].
+  replace (b2n (n2b 37)) with 37 by reflexivity.
   change (37 <? 128) with true. cbn [skipn]. change (37 =? 0) with false. change (37 =? 37) with true.
   cbn iota. rewrite Hu. unfold utf8_escape, read_byte. rewrite H1, H2. cbn [andb]. fold v.
   apply N.ltb_lt in Hv. rewrite Hv.
@@ -158,8 +158,7 @@ Proof.
 Qed.
 
 (* a NUL escape ends the string: what follows is dropped (here: %00 at the front of the rest) *)
-Lemma dec_esc_nul fuel s acc :
-  dec_esc (S fuel) (n2b 37 :: n2b 48 :: n2b 48 :: s) acc = POK acc.
+Lemma dec_esc_nul fuel s : dec_esc (S fuel) (n2b 37 :: n2b 48 :: n2b 48 :: s) = POK [].
 Proof. reflexivity. Qed.
 
 Example decode_examples :
